@@ -23,7 +23,7 @@ import (
 )
 
 func TestMain(m *testing.M) {
-	vlib.Rule("C29: 1-3 raw S3 requests per case to bucket `atk` on a real cluster holding victim entries outside it (bucket victimb with an object, a sub-directory and an in-flight upload; sibling bucket atk2; /etc/…, /topics/victim/…, a top-level file) and atk's own in-flight upload; adversarial strings (segments .., ., empty, %2e%2e, %2F, ..%2f, leading/trailing slash, .uploads/<id>/0001.part, victim paths, long, unicode, backslash, double-encoded) are used as object key, uploadId, X-Amz-Copy-Source, batch-delete <Key>, POST form key, partNumber, list prefix/marker on every route. Oracle per request: recursive filer snapshot of everything outside /buckets/atk/ unchanged; no victim content or victim entry name in the response; no victim content copied into atk (except an S3-legal copy source naming an object of another bucket); object routes neither return nor change atk/.uploads internals; servers alive. Non-trivial = request whose cleaned path differs from its raw path or that names .uploads.")
+	vlib.Rule("C29: 1-3 raw S3 requests per case to bucket `atk` on a real cluster holding victim entries outside it (bucket victimb with an object, a sub-directory and an in-flight upload; sibling bucket atk2; /etc/…, /topics/victim/…, a top-level file) and atk's own in-flight upload; adversarial strings (segments .., ., empty, %2e%2e, %2F, ..%2f, leading/trailing slash, .uploads/<id>/0001.part, victim paths, long, unicode, backslash, double-encoded) are used as object key, uploadId, X-Amz-Copy-Source, batch-delete <Key>, POST form key, partNumber, list prefix/marker on every route, with path-style or virtual-host-style addressing (gateway started with -domainName, bucket named in the Host header) and raw query strings in parser-differential shapes (';' after or instead of '&', duplicate keys, empty keys, '+'). Oracle per request: recursive filer snapshot of everything outside /buckets/atk/ unchanged; no entry stored under a literal directory path (uploadId / key joined as is) that resolves outside the bucket; no victim content or victim entry name in the response; no victim content copied into atk (except an S3-legal copy source naming an object of another bucket); object routes neither return nor change atk/.uploads internals; servers alive. Non-trivial = request whose cleaned path differs from its raw path or that names .uploads.")
 	vlib.Assume("the S3 gateway runs with an anonymous Admin identity so that unsigned raw requests are authorised on every route (auth is C26's subject) plus one signing identity for POST-policy forms; a copy source /otherbucket/key that stays inside that bucket's directory is legal S3 and not an escape; snapshots trust the filer gRPC listing")
 	vlib.Main(m)
 }
@@ -43,7 +43,7 @@ var (
 
 func cluster(t interface{ Fatalf(string, ...any) }) *vlib.Cluster {
 	clOnce.Do(func() {
-		cl, clErr = vlib.StartCluster(vlib.ClusterOpts{Volumes: 1, Filer: true, S3: true, S3Config: identities})
+		cl, clErr = vlib.StartCluster(vlib.ClusterOpts{Volumes: 1, Filer: true, S3: true, S3Config: identities, S3Args: []string{"-domainName=" + vhostDomain}})
 		if clErr == nil {
 			fl = s3kit.Filer{Grpc: cl.FilerGrpcAddr(), HTTP: cl.FilerURL()}
 		}
@@ -57,6 +57,9 @@ func cluster(t interface{ Fatalf(string, ...any) }) *vlib.Cluster {
 // ---------------------------------------------------------------- world
 
 const B = "atk"
+
+// the gateway also serves virtual-host style requests: Host: <bucket>.<vhostDomain>:<port>
+const vhostDomain = "s3.verif.test"
 
 type wfile struct{ path, content string }
 
@@ -194,6 +197,7 @@ var keyTemplates = []string{
 var uploadIDTemplates = []string{
 	"../../victimb", "../../victimb/vdir", "../../victimb/.uploads/vup", "../../../etc", "../../../topics/victim", "../../atk2", "..", ".", "", "aup", "aup/..", "aup/../../../victimb",
 	"../d", "../../atk/d", "aup/0001.part", "/etc", "../../..", "%2e%2e/%2e%2e/victimb", "..%2f..%2fvictimb", "nosuch", "../.uploads/aup", "../../victimb/", "aup/",
+	"%2e%2e/%2e%2e/victimb/vdir", "%2e%2e/%2e%2e/%2e%2e", "%2e%2e/%2e%2e/%2e%2e/etc", "%2e%2e%2f%2e%2e%2fvictimb%2fvdir",
 	"%252e%252e/%252e%252e/victimb/vdir", "%252e%252e%252f%252e%252e%252fvictimb%252fvdir", "%252e%252e/%252e%252e/%252e%252e", "%252e%252e", "aup%252f%252e%252e",
 }
 
@@ -312,6 +316,8 @@ type op struct {
 	postFile string  // file name of the POST form's file part (substituted for ${filename})
 	prefix  string   // list prefix / marker
 	rawQ    bool
+	vhost   bool // name the bucket in the Host header instead of the path
+	qShape  int  // shape of the raw query string, see shapeQuery
 	req     *s3kit.Req
 }
 
@@ -321,9 +327,69 @@ var bucketRoutes = []string{"DeleteMultipleObjects", "PostPolicy", "ListObjectsV
 
 const tagXML = `<Tagging xmlns="http://s3.amazonaws.com/doc/2006-03-01/"><TagSet><Tag><Key>planted</Key><Value>PLANTED-TAG</Value></Tag></TagSet></Tagging>`
 
-func (o *op) build(host string) {
-	r := &s3kit.Req{Host: host}
-	target := "/" + B + "/" + wirePath(o.key)
+// queryShapes: raw query strings on which query parsers can disagree. The pair
+// that carries the adversarial value (uploadId, else prefix) is the pivot.
+const (
+	qNormal      = iota
+	qSemiAfter   // pivot=value;x=1          (a ';' ends the pair for some parsers, spoils it for others)
+	qSemiBefore  // other=1;pivot=value      (';' used as the pair separator)
+	qDupSafeLast // pivot=value&pivot=aup    (duplicate key, adversarial value first)
+	qDupSafeHead // pivot=aup&pivot=value    (duplicate key, adversarial value last)
+	qPlusEmpty   // &=x&&pivot=value+&+=+    (empty key, empty pairs, '+')
+	qShapes
+)
+
+func shapeQuery(q []string, shape int) []string {
+	pivot := -1
+	for i, kv := range q {
+		if strings.HasPrefix(kv, "uploadId=") {
+			pivot = i
+		}
+	}
+	if pivot < 0 {
+		for i, kv := range q {
+			if strings.HasPrefix(kv, "prefix=") {
+				pivot = i
+			}
+		}
+	}
+	if pivot < 0 || shape == qNormal {
+		return q
+	}
+	key := q[pivot][:strings.Index(q[pivot], "=")]
+	out := append([]string(nil), q...)
+	switch shape {
+	case qSemiAfter:
+		out[pivot] = q[pivot] + ";x=1"
+	case qSemiBefore:
+		if pivot > 0 {
+			// join with the preceding pair by ';' instead of '&'
+			out = append(append([]string(nil), q[:pivot-1]...), q[pivot-1]+";"+q[pivot])
+			out = append(out, q[pivot+1:]...)
+		} else {
+			out[pivot] = "x=1;" + q[pivot]
+		}
+	case qDupSafeLast:
+		out = append(out, key+"=aup")
+	case qDupSafeHead:
+		out = append([]string{key + "=aup"}, out...)
+	case qPlusEmpty:
+		out = append([]string{"", "=x", ""}, out...)
+		out[pivot+3] = q[pivot] + "+"
+		out = append(out, "+=+")
+	}
+	return out
+}
+
+func (o *op) build(addr string) {
+	r := &s3kit.Req{Host: addr}
+	bucketPath := "/" + B
+	if o.vhost {
+		r.Addr = addr
+		r.Host = B + "." + vhostDomain + addr[strings.LastIndex(addr, ":"):]
+		bucketPath = ""
+	}
+	target := bucketPath + "/" + wirePath(o.key)
 	var q []string
 	addQ := func(k, v string) { q = append(q, k+"="+qEnc(v, o.rawQ)) }
 	switch o.route {
@@ -370,7 +436,7 @@ func (o *op) build(host string) {
 		q = append(q, "uploads=")
 	case "DeleteMultipleObjects":
 		r.Method = "POST"
-		target = "/" + B
+		target = bucketPath + "/"
 		q = append(q, "delete=")
 		var b strings.Builder
 		b.WriteString("<Delete>")
@@ -381,7 +447,7 @@ func (o *op) build(host string) {
 		r.Body = []byte(b.String())
 	case "PostPolicy":
 		r.Method = "POST"
-		target = "/" + B
+		target = bucketPath + "/"
 		now := time.Now().UTC()
 		f := s3kit.PostPolicyV4(poster, now, "us-east-1", B, o.postKey, now.Add(10*time.Minute), []byte("ATTACKER-POSTED-DATA"))
 		f.Name = o.postFile
@@ -393,24 +459,24 @@ func (o *op) build(host string) {
 		r.Body = body
 	case "ListObjectsV1":
 		r.Method = "GET"
-		target = "/" + B
+		target = bucketPath + "/"
 		addQ("prefix", o.prefix)
 		addQ("marker", o.upID)
 	case "ListObjectsV2":
 		r.Method = "GET"
-		target = "/" + B
+		target = bucketPath + "/"
 		q = append(q, "list-type=2")
 		addQ("prefix", o.prefix)
 		addQ("start-after", o.upID)
 	case "ListMultipartUploads":
 		r.Method = "GET"
-		target = "/" + B
+		target = bucketPath + "/"
 		q = append(q, "uploads=")
 		addQ("prefix", o.prefix)
 		addQ("upload-id-marker", o.upID)
 	}
 	if len(q) > 0 {
-		target += "?" + strings.Join(q, "&")
+		target += "?" + strings.Join(shapeQuery(q, o.qShape), "&")
 	}
 	r.RawTarget = target
 	o.req = r
@@ -418,6 +484,9 @@ func (o *op) build(host string) {
 
 func (o *op) String() string {
 	s := o.route + " " + o.req.Method + " " + o.req.RawTarget
+	if o.vhost {
+		s += " Host=" + B + "." + vhostDomain
+	}
 	if o.src != "" && (o.route == "CopyObject" || o.route == "CopyObjectPart") {
 		s += " copy-source=" + o.src
 	}
@@ -444,6 +513,10 @@ func genOp(t *rapid.T) *op {
 		o.route = rapid.SampledFrom(bucketRoutes).Draw(t, "route")
 	}
 	o.rawQ = rapid.Bool().Draw(t, "rawQuery")
+	o.vhost = rapid.IntRange(0, 2).Draw(t, "vhost") == 0
+	if rapid.IntRange(0, 2).Draw(t, "shapedQuery") == 0 {
+		o.qShape = rapid.IntRange(1, qShapes-1).Draw(t, "queryShape")
+	}
 	isUpload := false
 	for _, r := range uploadRoutes {
 		isUpload = isUpload || r == o.route
@@ -742,10 +815,74 @@ func judge(o *op, before, after s3kit.Snapshot, resp *s3kit.Resp, sendErr error)
 	return ""
 }
 
+// ghostDirs: the filer stores an entry under the directory string it is given.
+// A path with ".." segments that reaches the store uncleaned (through a filer URL
+// with encoded dots, or a gRPC call that does not clean) creates an entry that a
+// walk over real names never meets, although its path denotes a place outside
+// the bucket. These are the literal directories the request's upload id / key
+// would name if it were joined unvalidated, kept when they resolve outside atk.
+func ghostDirs(o *op) []string {
+	seen := map[string]bool{}
+	var out []string
+	add := func(literal string) {
+		literal = strings.TrimSuffix(literal, "/")
+		c := path.Clean(literal)
+		if c == literal || within(c, bucketDir) || seen[literal] || len(literal) > 900 {
+			return
+		}
+		seen[literal] = true
+		out = append(out, literal)
+	}
+	switch o.route {
+	case "PutObjectPart", "CopyObjectPart", "CompleteMultipartUpload", "AbortMultipartUpload", "ListObjectParts":
+		for _, v := range decodings(o.upID) {
+			add(uploadsDir + "/" + v)
+		}
+	}
+	keys := []string{}
+	if k, ok := decodedKey(o.key); ok && (isObjectRoute(o.route) || o.route == "NewMultipartUpload" || o.route == "CompleteMultipartUpload") {
+		keys = append(keys, decodings(k)...)
+	}
+	if o.route == "PostPolicy" {
+		keys = append(keys, strings.ReplaceAll(o.postKey, "${filename}", path.Base(o.postFile)))
+	}
+	for _, k := range keys {
+		full := bucketDir + "/" + strings.TrimPrefix(k, "/")
+		if i := strings.LastIndex(full, "/"); i > 0 {
+			add(full[:i])
+		}
+		add(full)
+	}
+	return out
+}
+
+func ghostSnap(t interface{ Fatalf(string, ...any) }, dirs []string) s3kit.Snapshot {
+	all := s3kit.Snapshot{}
+	for _, d := range dirs {
+		s, err := fl.Snap(d, nil)
+		if err != nil {
+			t.Fatalf("INCONCLUSIVE listing %q: %v", d, err)
+		}
+		for p, v := range s {
+			all[p] = v
+		}
+	}
+	return all
+}
+
 func runOp(t interface{ Fatalf(string, ...any) }, o *op, before s3kit.Snapshot) (after s3kit.Snapshot, class string, failure string) {
 	o.build(cl.S3Addr())
+	gd := ghostDirs(o)
+	ghostBefore := ghostSnap(t, gd)
 	resp, err := s3kit.Send(o.req)
 	after = snap(t)
+	if d := s3kit.Diff(ghostBefore, ghostSnap(t, gd), 4); d != "" {
+		st := 0
+		if resp != nil {
+			st = resp.Status
+		}
+		return after, "", fmt.Sprintf("filer entries were written under a directory path that resolves outside /buckets/%s/: %s (response %d)", B, d, st)
+	}
 	if msg := judge(o, before, after, resp, err); msg != "" {
 		return after, "", msg
 	}
@@ -811,7 +948,30 @@ func templateOps() []*op {
 			for _, raw := range []bool{true, false} {
 				items = append(items, &op{route: r, key: "mp/target.bin", upID: id, part: "1", src: "/atk/own.txt", rawQ: raw})
 			}
+			// parser-differential query shapes around the uploadId pair
+			for _, shape := range []int{qSemiAfter, qSemiBefore} {
+				items = append(items, &op{route: r, key: "mp/target.bin", upID: id, part: "1", src: "/atk/own.txt", qShape: shape})
+			}
 		}
+		for _, shape := range []int{qDupSafeLast, qDupSafeHead, qPlusEmpty} {
+			for _, id := range []string{"../../victimb", "../../victimb/vdir", "%2e%2e/%2e%2e/victimb/vdir", "../../../etc"} {
+				items = append(items, &op{route: r, key: "mp/target.bin", upID: id, part: "1", src: "/atk/own.txt", qShape: shape})
+			}
+		}
+	}
+	// virtual-host style addressing (Host: atk.<domain>:<port>) of the same attacks
+	for _, k := range keyTemplates {
+		items = append(items, &op{route: "GetObject", key: k, vhost: true}, &op{route: "PutObjectTagging", key: k, vhost: true})
+	}
+	for _, id := range uploadIDTemplates {
+		items = append(items, &op{route: "AbortMultipartUpload", key: "mp/target.bin", upID: id, vhost: true, rawQ: true},
+			&op{route: "CopyObjectPart", key: "mp/target.bin", upID: id, part: "1", src: "/atk/own.txt", vhost: true})
+	}
+	for _, s := range copySourceTemplates {
+		items = append(items, &op{route: "CopyObject", key: "copied.bin", src: s, vhost: true})
+	}
+	for _, k := range batchKeyTemplates {
+		items = append(items, &op{route: "DeleteMultipleObjects", key: "x", batch: []string{k}, vhost: true})
 	}
 	for _, k := range keyTemplates {
 		items = append(items, &op{route: "NewMultipartUpload", key: k}, &op{route: "CompleteMultipartUpload", key: k, upID: "aup"})
@@ -884,3 +1044,4 @@ func TestSurveyTemplates(t *testing.T) {
 		}
 	}
 }
+
